@@ -1075,7 +1075,7 @@ func extractByronTransactionOffsets(
 	cborData []byte,
 	blockArray []cbor.RawMessage,
 ) (*BlockTransactionOffsets, error) {
-	arrayHeaderSize := cborArrayHeaderSize(len(blockArray))
+	arrayHeaderSize := cborArrayHeaderSizeOf(cborData, len(blockArray))
 
 	// blockArray[0] = header, blockArray[1] = body, blockArray[2] = extra
 	headerOffset := arrayHeaderSize
@@ -1105,11 +1105,11 @@ func extractByronTransactionOffsets(
 
 	// Calculate the absolute offset of the tx_payload array within the block.
 	// body starts at bodyOffset, body is an array: [tx_payload, ssc, dlg, upd]
-	bodyArrayHeader := cborArrayHeaderSize(len(bodyParts))
+	bodyArrayHeader := cborArrayHeaderSizeOf(blockArray[1], len(bodyParts))
 	txPayloadOffset := bodyOffset + bodyArrayHeader // tx_payload is bodyParts[0]
 
 	// The tx_payload itself is an array of transaction pairs
-	txPayloadArrayHeader := cborArrayHeaderSize(len(txPayload))
+	txPayloadArrayHeader := cborArrayHeaderSizeOf(bodyParts[0], len(txPayload))
 	// Check for indefinite-length array
 	txPayloadAbsStart := int(txPayloadOffset)
 	if txPayloadAbsStart < len(cborData) && cborData[txPayloadAbsStart] == 0x9f {
@@ -1137,7 +1137,7 @@ func extractByronTransactionOffsets(
 		}
 
 		// Each pair is a 2-element CBOR array: [tx_body, tx_witnesses]
-		pairArrayHeader := cborArrayHeaderSize(len(txPair))
+		pairArrayHeader := cborArrayHeaderSizeOf(rawPair, len(txPair))
 		// Check for indefinite-length pair array
 		pairAbsStart := int(pairPos)
 		if pairAbsStart < len(cborData) && cborData[pairAbsStart] == 0x9f {
@@ -1200,7 +1200,7 @@ func extractByronOutputOffsets(
 
 	// Calculate offset to the outputs array within the block.
 	// Skip: body array header + inputs element
-	bodyArrayHeader := cborArrayHeaderSize(len(bodyParts))
+	bodyArrayHeader := cborArrayHeaderSizeOf(bodyData, len(bodyParts))
 	// Check for indefinite-length body array
 	if len(bodyData) > 0 && bodyData[0] == 0x9f {
 		bodyArrayHeader = 1
@@ -1209,7 +1209,7 @@ func extractByronOutputOffsets(
 	outputsAbsOffset := bodyOffset + uint32(bodyArrayHeader) + inputsLen
 
 	// Determine outputs array header size
-	outputsArrayHeader := uint32(cborArrayHeaderSize(len(outputsRaw)))
+	outputsArrayHeader := cborArrayHeaderSizeOf(bodyParts[1], len(outputsRaw))
 	outputsArrayStart := int(outputsAbsOffset - bodyOffset)
 	if outputsArrayStart >= 0 && outputsArrayStart < len(bodyData) && bodyData[outputsArrayStart] == 0x9f {
 		outputsArrayHeader = 1 // indefinite-length
@@ -1546,7 +1546,7 @@ func ExtractTransactionOffsets(cborData []byte) (*BlockTransactionOffsets, error
 	// Shelley+ block layout: [header, tx_bodies[], witnesses[], metadata_map, ...]
 	// Calculate header size by finding where blockArray[0] starts
 	// CBOR array header is 1 byte for arrays < 24 elements, more for larger
-	arrayHeaderSize := cborArrayHeaderSize(len(blockArray))
+	arrayHeaderSize := cborArrayHeaderSizeOf(cborData, len(blockArray))
 
 	// blockArray[0] is the header, blockArray[1] is tx bodies, blockArray[2] is witnesses
 	// blockArray[3] is metadata (if present)
@@ -1607,7 +1607,7 @@ func ExtractTransactionOffsets(cborData []byte) (*BlockTransactionOffsets, error
 	if int(txBodiesOffset) < len(cborData) && cborData[txBodiesOffset] == 0x9f {
 		bodiesArrayHeader = 1
 	} else {
-		bodiesArrayHeader = cborArrayHeaderSize(len(txBodiesRaw))
+		bodiesArrayHeader = cborArrayHeaderSizeOf(blockArray[1], len(txBodiesRaw))
 	}
 	bodyPos := txBodiesOffset + bodiesArrayHeader
 	for i, rawBody := range txBodiesRaw {
@@ -1629,7 +1629,7 @@ func ExtractTransactionOffsets(cborData []byte) (*BlockTransactionOffsets, error
 	if int(witnessesOffset) < len(cborData) && cborData[witnessesOffset] == 0x9f {
 		witnessArrayHeader = 1
 	} else {
-		witnessArrayHeader = cborArrayHeaderSize(len(witnessesRaw))
+		witnessArrayHeader = cborArrayHeaderSizeOf(blockArray[2], len(witnessesRaw))
 	}
 	witnessPos := witnessesOffset + witnessArrayHeader
 	for i, rawWitness := range witnessesRaw {
@@ -1741,7 +1741,7 @@ func extractOutputOffsets(
 			if arrayStartIdx < len(bodyData) && bodyData[arrayStartIdx] == 0x9f {
 				outputsArrayHeader = 1 // indefinite-length array
 			} else {
-				outputsArrayHeader = uint32(cborArrayHeaderSize(len(outputsRaw)))
+				outputsArrayHeader = cborArrayHeaderSizeOf(bodyData[min(arrayStartIdx, len(bodyData)):], len(outputsRaw))
 			}
 
 			// Track position within outputs array
@@ -2266,6 +2266,17 @@ func cborMapInfo(data []byte) (int, uint32, bool) {
 }
 
 // cborArrayHeaderSize returns the CBOR header size in bytes for an array of given length.
+// cborArrayHeaderSizeOf returns the size of the array header that is actually present at the
+// start of data: a definite-length header of any width (also a non-minimal one) or the single byte
+// of an indefinite-length array. Only if data does not start with an array header does it fall back
+// to the size of the minimal header for count elements.
+func cborArrayHeaderSizeOf(data []byte, count int) uint32 {
+	if n, headerSize, indefinite := cborArrayInfo(data); n >= 0 || indefinite {
+		return headerSize
+	}
+	return cborArrayHeaderSize(count)
+}
+
 func cborArrayHeaderSize(length int) uint32 {
 	if length < 24 {
 		return 1 // 0x80 + length
